@@ -49,6 +49,10 @@ def run(ctx: Ctx):
     from .common import generic_lints
 
     generic_lints(ctx)
+    from .common import dependency_footprints
+
+    dependency_footprints(ctx)
+    range_collapse(ctx)
 
 
 # --------------------------------------------------------------------------- layouts
@@ -379,3 +383,39 @@ def ranges(ctx: Ctx):
         h = "unweighted" if cname == "_UnweightedBases" else "weighted"
         want = f"np.array([np.min(self._cube_measures.{h}_cube_counts.bases), np.max(self._cube_measures.{h}_cube_counts.bases)])"
         ctx.check_expr("range", f"stripe/measure.py::{cname}.{prop}", e, want)
+
+
+def range_collapse(ctx: Ctx):
+    """`table_base_range` / `table_margin_range` (and the matrix *_bases_range) are the EXACT minimum and maximum of the
+    per-row (per-cell) bases: the reduction runs over the bases themselves.  A boolean filter applied first (`bases[bases
+    > 0]`, `bases[~np.isnan(bases)]`) reports the range of a subset - an item nobody was asked has base 0 and is part
+    of the collapse."""
+    from ..stmts import reachable_functions, resolver
+
+    targets = [("stripe/measure.py", "_UnweightedBases", "table_base_range"), ("stripe/measure.py", "_WeightedBases", "table_margin_range"),
+               ("matrix/measure.py", "_TableBasesRange", "value")]
+    n = 0
+    for short, cname, member in targets:
+        try:
+            ci = ctx.repo.cls(short, cname)
+        except Exception:
+            continue
+        if ctx.repo.lookup(ci, member) is None:
+            continue
+        where = f"{short}::{cname}.{member}"
+        filtered, reductions = [], 0
+        for fn in reachable_functions(ctx.repo, ci, member):
+            res = resolver(fn, multi=True)
+            for c in ast.walk(fn):
+                if isinstance(c, ast.Call) and u(c.func) in ("np.min", "np.max", "np.nanmin", "np.nanmax", "min", "max") and c.args:
+                    reductions += 1
+                    for v in res(c.args[0]):
+                        for sub in ast.walk(v):
+                            if isinstance(sub, ast.Subscript) and any(isinstance(x, (ast.Compare,)) or (isinstance(x, ast.UnaryOp) and isinstance(x.op, ast.Invert)) for x in ast.walk(sub.slice)):
+                                filtered.append(u(sub)[:70])
+        n += 1
+        if filtered:
+            ctx.violated("range.exact", where, sorted(set(filtered)), "min / max over ALL the bases", "the range of a filtered subset is not the collapse of the per-row bases")
+        else:
+            ctx.ob("range.exact", where, f"{reductions} min/max reductions, none over a filtered subset", "min / max over all the bases", True if reductions else None)
+    ctx.count("base ranges checked", n)
